@@ -64,6 +64,7 @@ type symtabObs struct {
 	Adds    []addObs `json:"adds"`
 	Built   tableObs `json:"built"`
 	Builder tableObs `json:"builder"`
+	Snaps   []tableObs `json:"snaps"` // tables built after 0, 1, ... Adds, all queried after the last Add
 	// the local table written out and read back by a Reader whose catalog holds the (unadjusted) imports:
 	// "" judged, "skip" (two imports share name and version), else the error
 	RT         string   `json:"rt"`
@@ -184,7 +185,7 @@ func cmdSymtab(in *bufio.Scanner, out *bufio.Writer) error {
 			return err
 		}
 		idx++
-		o := symtabObs{Idx: idx, Adds: []addObs{}}
+		o := symtabObs{Idx: idx, Adds: []addObs{}, Snaps: []tableObs{}}
 		empty := tableObs{ByID: []byIDObs{}, ByName: []byNameObs{}, BySid: []bySidObs{}, Symbols: []Bytes{}, Imports: []impObs{}}
 		o.ViaString, o.ViaWriteTo, o.ViaBinary = empty, empty, empty
 		err, pan, site := safely(func() error {
@@ -196,9 +197,16 @@ func cmdSymtab(in *bufio.Scanner, out *bufio.Writer) error {
 			o.Local = observeTable(lt)
 			tableRoundTrip(c, lt, &o)
 			b := ion.NewSymbolTableBuilder(imps...)
+			// a table is built after every prefix of the Add sequence and queried only at the end: a built table is a
+			// snapshot that later Adds must not change
+			snaps := []ion.SymbolTable{b.Build()}
 			for _, a := range c.Adds {
 				id, added := b.Add(string(a))
 				o.Adds = append(o.Adds, addObs{ID: int64(id), Added: added, MaxID: int64(b.MaxID())})
+				snaps = append(snaps, b.Build())
+			}
+			for _, t := range snaps {
+				o.Snaps = append(o.Snaps, observeTable(t))
 			}
 			o.Built = observeTable(b.Build())
 			o.Builder = observeTable(b)
